@@ -217,7 +217,34 @@ func c06ErrorsCounted(c *Ctx, r *Report) {
 		})
 		ast.Inspect(rd.Decl.Body, func(x ast.Node) bool {
 			if rs, ok := x.(*ast.ReturnStmt); ok && len(rs.Results) == 1 {
+				if _, inLit := enclosingLit(rd.Decl.Body, rs.Pos()); inLit {
+					return true // a return of a nested closure
+				}
 				retField = fieldVar(info, rs.Results[0])
+				if retField == nil {
+					// a local that is only ever assigned the field (possibly inside a lock-wrapper closure)
+					if o := identObj(info, rs.Results[0]); o != nil {
+						var only *types.Var
+						consistent := true
+						ast.Inspect(rd.Decl.Body, func(y ast.Node) bool {
+							if as, ok := y.(*ast.AssignStmt); ok && len(as.Lhs) == len(as.Rhs) {
+								for i, l := range as.Lhs {
+									if identObj(info, l) == o {
+										fv := fieldVar(info, as.Rhs[i])
+										if fv == nil || (only != nil && only != fv) {
+											consistent = false
+										}
+										only = fv
+									}
+								}
+							}
+							return true
+						})
+						if consistent {
+							retField = only
+						}
+					}
+				}
 			}
 			return true
 		})
@@ -620,22 +647,59 @@ func c06Stdin(c *Ctx, r *Report) {
 	if !found {
 		r.Bad(rule, fi.Name, "OpenReaderToChan", c.Pos(fi.Decl.Pos()), "standard input is never read")
 	}
-	// the condition: an if whose condition mentions len(args) == 0 and args[0] == "-"
+	// the condition: at the call, a decision `len(args) == 0 || args[0] == "-"` is known to have been taken
+	// with the answer true (if / else-if / tagless switch alike)
 	okCond := false
 	ast.Inspect(fi.Decl.Body, func(n ast.Node) bool {
-		is, ok := n.(*ast.IfStmt)
-		if !ok {
+		ce, ok := n.(*ast.CallExpr)
+		if !ok || calleeName(info, ce) != batchersPkg+".OpenReaderToChan" {
 			return true
 		}
-		txt := exprStr(is.Cond)
-		if strings.Contains(txt, "== 0") && strings.Contains(txt, `== "-"`) && strings.Contains(txt, "||") {
-			// the stdin call is inside this branch
-			ast.Inspect(is.Body, func(m ast.Node) bool {
-				if ce, ok := m.(*ast.CallExpr); ok && calleeName(info, ce) == batchersPkg+".OpenReaderToChan" {
-					okCond = true
+		isGuard := func(cond ast.Expr) bool {
+			be, isBin := ast.Unparen(cond).(*ast.BinaryExpr)
+			if !isBin || be.Op != token.LOR {
+				return false
+			}
+			emptyArgs, dash := false, false
+			for _, d := range []ast.Expr{be.X, be.Y} {
+				d2, isB := ast.Unparen(d).(*ast.BinaryExpr)
+				if !isB || d2.Op != token.EQL {
+					continue
 				}
-				return true
-			})
+				if k, isK := constInt(info, d2.Y); isK && k == 0 {
+					if lc, isCall := ast.Unparen(d2.X).(*ast.CallExpr); isCall && calleeName(info, lc) == "builtin.len" {
+						emptyArgs = true
+					}
+				}
+				if sv, isS := constString(info, d2.Y); isS && sv == "-" {
+					if ix, isIx := ast.Unparen(d2.X).(*ast.IndexExpr); isIx {
+						if k, isK := constInt(info, ix.Index); isK && k == 0 {
+							dash = true
+						}
+					}
+				}
+			}
+			return emptyArgs && dash
+		}
+		target := fg.NodeOf(ce.Pos())
+		if target < 0 {
+			return true
+		}
+		paths, all := 0, true
+		enumPaths(fg, fg.Entry, func(id int) bool { return id == target }, func(nodes []int, edges []FEdge) {
+			paths++
+			took := false
+			for _, e := range edges {
+				if e.Cond != nil && e.Tag == nil && e.Truth && isGuard(e.Cond) {
+					took = true
+				}
+			}
+			if !took {
+				all = false
+			}
+		})
+		if paths > 0 && all {
+			okCond = true
 		}
 		return true
 	})
@@ -716,4 +780,16 @@ func c06OpenFailures(c *Ctx, r *Report) {
 		return true
 	})
 	r.Floor(rule, 2, "open failure and rewind failure")
+}
+
+// enclosingLit reports whether pos lies inside a function literal nested in root.
+func enclosingLit(root ast.Node, pos token.Pos) (*ast.FuncLit, bool) {
+	var out *ast.FuncLit
+	ast.Inspect(root, func(n ast.Node) bool {
+		if fl, ok := n.(*ast.FuncLit); ok && within(fl, pos) {
+			out = fl
+		}
+		return true
+	})
+	return out, out != nil
 }
